@@ -161,19 +161,26 @@ fn pprefix(rng: &mut Rng, ctx: &mut Ctx) {
     let comps = [None, Some(arrow2::io::ipc::write::Compression::LZ4), Some(arrow2::io::ipc::write::Compression::ZSTD)];
     let go = GenOpts { max_frames: 3, newer: false, force: None };
     for k0 in 0..ctx.n { let k = k0 + ctx.seed as usize;
-        let (r, tags) = loop { let kk = k * 5 + (rng.next() % 60) as usize; let (r, t) = gen_replay(rng, kk, &go); if !slots_of(&r.start_block).is_empty() && (k % 3 != 2 || r.frames.is_empty() || true) { break (r, t); } };
+        let (r, tags) = loop { let kk = k * 5 + (rng.next() % 60) as usize; let (r, t) = gen_replay(rng, kk, &go); if !slots_of(&r.start_block).is_empty() && (k % 3 != 1 || (!r.frames.is_empty() && r.frames.last().unwrap().chars.iter().any(|c| c.2.is_some()))) { break (r, t); } };
         let mut r = r; if k % 4 == 3 { r.frames.clear(); }
+        // one archive in three carries a longer game (a few dozen frames, so that every column buffer is more than a few bytes)
+        if k % 3 == 1 && !r.frames.is_empty() { let want = 20 + (k % 7) * 4; let last = r.frames.last().unwrap().clone(); let mut id = last.id;
+            while r.frames.len() < want { let mut f = last.clone(); id += 1; f.id = id; for c in f.chars.iter_mut() { if let Some(ev) = c.2.as_mut() { let n1 = ev.pre.len(); let n2 = ev.post.len(); if n1 > 4 { ev.pre[(rng.next() as usize) % n1] = (rng.next() >> 8) as u8; } if n2 > 4 { ev.post[(rng.next() as usize) % n2] = (rng.next() >> 8) as u8; } } } r.frames.push(f); } }
         let b = encode(&r); let comp = comps[k % 3];
         let a = match std::panic::catch_unwind(|| to_slpp(&b, comp, true)) { Ok(Ok(a)) => a, _ => { let mut c = Case::new(format!("pprefix {}", hex(&b)), "unwritable".into()); c.fail("C02", "well-formed replay could not be written as .slpp"); ctx.push(c); continue; } };
-        let skipf = (k / 3) % 2 == 1; // every other archive is walked with the skip-frames option
+        let skipf = k % 2 == 1; // every other archive is walked with the skip-frames option
         let full = match peppi::io::peppi::read(Cursor::new(&a), Some(&peppi::io::peppi::de::Opts { skip_frames: skipf })) { Ok(g) => game_sig(&g), Err(e) => { let mut c = Case::new(format!("pprefix {}", hex(&b)), "unreadable".into()); c.fail("C02", format!("written .slpp unreadable: {}", e)); ctx.push(c); continue; } };
         let mut bad = vec![]; let mut complete_from = a.len(); let mut hung = None;
         let seed = ctx.seed as usize; let thorough = ctx.thorough;
-        let cuts: Vec<usize> = (0..a.len()).filter(|n| thorough || n % 512 < 16 || n % 512 >= 504 || matches!(n % 8, 0 | 1 | 7) || (n + seed) % 13 == 0).collect();
+        let big = a.len() > 30_000; // a big archive is thinned to every third sampled offset in the quick tier (any 8 consecutive offsets keep two or three)
+        let cuts: Vec<usize> = (0..a.len()).filter(|n| thorough || ((n % 512 < 16 || n % 512 >= 504 || matches!(n % 8, 0 | 1 | 7) || (n + seed) % 13 == 0) && (!big || n % 3 == 0 || n % 512 < 2))).collect();
         // one worker thread walks the cuts; the parent watches the clock so that a reader that blocks is observed, not waited for
         let (tx, rx) = std::sync::mpsc::channel();
         { let a = a.clone(); let cuts = cuts.clone(); std::thread::Builder::new().stack_size(8 << 20).spawn(move || { for n in cuts {
-            let res = std::panic::catch_unwind(|| peppi::io::peppi::read(Cursor::new(&a[..n]), Some(&peppi::io::peppi::de::Opts { skip_frames: skipf })).map(|g| game_sig(&g)).map_err(|_| ()));
+            // every other cut is read through a source that returns short reads (a pipe, a socket, a decompressor)
+            let chunked = n % 2 == 1;
+            let res = if chunked { std::panic::catch_unwind(|| peppi::io::peppi::read(Chunked::new(a[..n].to_vec(), vec![13, 1, 100], None), Some(&peppi::io::peppi::de::Opts { skip_frames: skipf })).map(|g| game_sig(&g)).map_err(|_| ())) }
+                else { std::panic::catch_unwind(|| peppi::io::peppi::read(Cursor::new(&a[..n]), Some(&peppi::io::peppi::de::Opts { skip_frames: skipf })).map(|g| game_sig(&g)).map_err(|_| ())) };
             if tx.send((n, res)).is_err() { break; } } }).unwrap(); }
         let mut expect = cuts.iter();
         loop {
